@@ -464,7 +464,13 @@ func (p *Proxy) handle(ctx *Context, conn net.Conn, brw *bufio.ReadWriter) error
 	link(req, ctx)
 	defer unlink(req)
 
-	if tsconn, ok := conn.(*trafficshape.Conn); ok {
+	// The TLS state comes from the session's connection: handleLoop keeps passing the connection it
+	// accepted, also for the second and later requests of a connection that was upgraded by MITM.
+	sconn := session.connection()
+	if sconn == nil {
+		sconn = conn
+	}
+	if tsconn, ok := sconn.(*trafficshape.Conn); ok {
 		wrconn := tsconn.GetWrappedConn()
 		if sconn, ok := wrconn.(*tls.Conn); ok {
 			session.MarkSecure()
@@ -474,7 +480,7 @@ func (p *Proxy) handle(ctx *Context, conn net.Conn, brw *bufio.ReadWriter) error
 		}
 	}
 
-	if tconn, ok := conn.(*tls.Conn); ok {
+	if tconn, ok := sconn.(*tls.Conn); ok {
 		session.MarkSecure()
 
 		cs := tconn.ConnectionState()
